@@ -268,8 +268,17 @@ package participle
 //@   before call (*participle.parseContext).Apply#1: assert from == len(old(ctx.apply)) [C02]
 //@   before call (*participle.parseContext).Apply#2: assert from == len(old(ctx.apply)) [C02]
 
+// memberFor: the union member type (T or *T) a parsed value belongs to.
+//@ func (*union).memberFor [C06 C01]
+//@   requires @assumed forall(k, 0, len(u.members), u.members[k] != nil)
+//@   pure
+//@   ensures result != nil
+//@   loop 1 invariant -1 <= rangeindex && rangeindex < len(u.members)
+//@   loop 1 decreases len(u.members) - rangeindex
+
 //@ func (*union).Parse [C01 C02 C06]
 //@   implements node.Parse
+//@   modifies family(reflect.Value)
 //@   use wfUnion(u) at entry
 //@   loop 1 invariant -1 <= rangeindex && rangeindex < len(vals)
 //@   loop 1 decreases len(vals) - rangeindex
